@@ -71,7 +71,7 @@ func trace(w *world, scripts [][]string, order []int, gets map[int][]int) []Ev {
 		pos[i]++
 		e := Ev{Kind: kind, A: i}
 		if kind == "write" {
-			e.B = w.bundles[i].absLen + 1
+			e.B = w.dataLen(i)
 		}
 		evs = append(evs, e, Ev{Kind: "probe"})
 	}
@@ -130,27 +130,48 @@ func Run(c *common.Ctx) error {
 	defer func() { file.VerifHook = nil }()
 	ca := common.MakeCert(common.CertOpts{Subject: common.Name("C14 CRL issuer"), CA: true, PathLen: -1,
 		KeyUsage: x509.KeyUsageCertSign | x509.KeyUsageCRLSign})
-	pl := &pool{}
+	pl := &pool{dir: c.WorkDir, sizes: map[[2]int]int64{}}
+	mk := func(number int64, entries int, absLen int) (*bund, error) {
+		b, err := makeBundle(ca, number, entries, c.WorkDir, absLen)
+		if err != nil {
+			return nil, err
+		}
+		return pl.add(b), nil
+	}
 	var err0 error
 	for i := 0; i < 6; i++ {
-		b, err := makeBundle(ca, int64(i+1), 2+i, c.WorkDir, smallLen)
+		b, err := mk(int64(i+1), 2+i, smallLen)
 		if err != nil {
 			return err
 		}
 		pl.small = append(pl.small, b)
 	}
 	for i := 0; i < 6; i++ {
-		b, err := makeBundle(ca, int64(100+i), 36000+500*i, c.WorkDir, largeLen)
+		b, err := mk(int64(100+i), 36000+500*i, largeLen)
 		if err != nil {
 			return err
 		}
 		pl.large = append(pl.large, b)
 	}
-	if pl.huge, err0 = makeBundle(ca, 500, 130000, c.WorkDir, largeLen); err0 != nil {
+	for i := 0; i < 2; i++ {
+		b, err := mk(int64(200+i), 900+300*i, mediumLen)
+		if err != nil {
+			return err
+		}
+		pl.medium = append(pl.medium, b)
+	}
+	for i := 0; i < 3; i++ { // delta CRLs (the cache does not interpret them: any CRL will do)
+		b, err := mk(int64(300+i), 1+40*i, smallLen)
+		if err != nil {
+			return err
+		}
+		pl.deltas = append(pl.deltas, b)
+	}
+	if pl.huge, err0 = mk(500, 130000, largeLen); err0 != nil {
 		return err0
 	}
-	c.Note("bundles: real CRLs (x509.CreateRevocationList), distinct Number per Set call; small ~%d B and large ~%d B cache files (kill-during-write: ~%d B).",
-		pl.small[0].fileSize, pl.large[0].fileSize, pl.huge.fileSize)
+	c.Note("bundles: real CRLs (x509.CreateRevocationList), identified by content (base CRL id, delta CRL id); small ~%d B, medium ~%d B and large ~%d B cache files (kill-during-write: ~%d B).",
+		pl.small[0].fileSize, pl.medium[0].fileSize, pl.large[0].fileSize, pl.huge.fileSize)
 	r := &runner{c: c, pool: pl}
 	g := func(key int) wplan { return wplan{key: key} }
 
@@ -379,7 +400,17 @@ func Run(c *common.Ctx) error {
 	if err = r.midWrite(); err != nil {
 		return err
 	}
+	// (d) write histories on one URL whose bundles share content; (e) writes that fail
+	if err = r.sharedContent(all2); err != nil {
+		return err
+	}
+	if err = r.writeFaults(); err != nil {
+		return err
+	}
 	// (c) free-running goroutines and processes - supporting evidence
+	if err = r.freeAlternating(); err != nil {
+		return err
+	}
 	if err = r.freeRun(false); err != nil {
 		return err
 	}
@@ -390,6 +421,8 @@ func Run(c *common.Ctx) error {
 	c.Note("URLs: every experiment takes its URLs from one of %d adversarial families (differ only in query / query order / fragment / host case / scheme case / path case / trailing slash / dot segments / userinfo / percent-encoding / port / LDAP attributes / no host ...) plus one more URL of the family that is never stored and must always miss; probes read through a second FileCache instance over the same directory.", len(urlFamilies))
 	c.Note("stepped: all 70 interleavings of 2 Set calls (4 file-system steps each) on one URL x a Get at each of 9 positions and at each of 45 position pairs (exhaustive), 70 interleavings on two URLs, existing entry + 70, %d interleavings of 3 Set calls (of 34650; thorough = all), %d with ~1 MiB bundles; a probe (directory listing + Get of every URL) follows every step.", n3, nl)
 	c.Note("crash: child-process writer SIGKILLed after each of its 4 steps under all 246 interleavings with a goroutine writer, sampled variants with an existing entry / second URL / large bundle / two children; self-kill at each hook; parent kill during the write of a large bundle (trace reconstructed post mortem from the temp file size).")
+	c.Note("shared content: histories of 2-3 Set calls on one URL whose bundles share a base CRL (with/without delta, two deltas, identical twice, A-B-A, shared delta ...), run by goroutines of one FileCache and by goroutine/child-process mixes, sequentially and interleaved, a Get after every completed Set: the result must be the CONTENT (base and delta) of a latest completed Set.")
+	c.Note("write faults: child-process writer with RLIMIT_FSIZE 0 / 1 / half the entry / 4096 (SIGXFSZ ignored, the writer keeps running), small and large entries, with and without an existing entry, alone and interleaved with a goroutine writer: key absent or complete (old or new), Set reports the error iff its write failed.")
 	c.Note("free-running goroutines and processes: supporting evidence only (the model cannot predict which allowed result a free Get sees; 'agree' there means every result is one the model allows).")
 	return nil
 }
@@ -405,7 +438,7 @@ func (r *runner) selfKills() error {
 					return err
 				}
 				var evs []Ev
-				obs := Obs{Gets: []ReadObs{}, Probes: []DirObs{}, Seen: []SeenObs{}}
+				obs := Obs{Gets: []ReadObs{}, Probes: []DirObs{}, Seen: []SeenObs{}, Failed: []int{}}
 				if pre {
 					evs = trace(w, [][]string{wsteps, {}}, []int{0, 0, 0, 0}, nil)
 					var dev int
@@ -423,7 +456,7 @@ func (r *runner) selfKills() error {
 				for _, k := range wsteps[:j] {
 					e := Ev{Kind: k, A: 1}
 					if k == "write" {
-						e.B = w.bundles[1].absLen + 1
+						e.B = w.dataLen(1)
 					}
 					evs = append(evs, e)
 				}
@@ -460,7 +493,7 @@ func (r *runner) midWrite() error {
 		}
 		w.bundles[1] = r.pool.huge
 		var evs []Ev
-		obs := Obs{Gets: []ReadObs{}, Probes: []DirObs{}, Seen: []SeenObs{}}
+		obs := Obs{Gets: []ReadObs{}, Probes: []DirObs{}, Seen: []SeenObs{}, Failed: []int{}}
 		if pre {
 			evs = trace(w, [][]string{wsteps, {}}, []int{0, 0, 0, 0}, nil)
 			var dev int
@@ -505,9 +538,9 @@ func (r *runner) midWrite() error {
 		evs = append(evs, Ev{Kind: "create", A: 1})
 		switch {
 		case tempSize >= 0 && tempSize < b.fileSize:
-			n := int(tempSize * int64(b.absLen+1) / b.fileSize)
-			if n > b.absLen {
-				n = b.absLen
+			n := int(tempSize * int64(b.absLen+3) / b.fileSize)
+			if n > b.absLen+2 {
+				n = b.absLen + 2
 			}
 			evs = append(evs, Ev{Kind: "write", A: 1, B: n})
 			if tempSize == 0 {
@@ -516,10 +549,10 @@ func (r *runner) midWrite() error {
 				r.c.Count("midwrite=killed-with-partial-temp-file")
 			}
 		case tempSize == b.fileSize:
-			evs = append(evs, Ev{Kind: "write", A: 1, B: b.absLen + 1})
+			evs = append(evs, Ev{Kind: "write", A: 1, B: b.absLen + 3})
 			r.c.Count("midwrite=killed-after-write-before-rename (announce=" + announce + ")")
 		default: // no temp file left: the rename happened
-			evs = append(evs, Ev{Kind: "write", A: 1, B: b.absLen + 1}, Ev{Kind: "close", A: 1}, Ev{Kind: "rename", A: 1})
+			evs = append(evs, Ev{Kind: "write", A: 1, B: b.absLen + 3}, Ev{Kind: "close", A: 1}, Ev{Kind: "rename", A: 1})
 			r.c.Count("midwrite=killed-after-rename (announce=" + announce + ")")
 		}
 		evs = append(evs, Ev{Kind: "crash", A: 1}, Ev{Kind: "get", A: 0}, Ev{Kind: "probe"})
@@ -558,7 +591,7 @@ func (r *runner) freeRun(withLarge bool) error {
 	seen := map[SeenObs]int{}
 	record := func(k int, o ReadObs, after bool) {
 		mu.Lock()
-		seen[SeenObs{Key: k, Kind: o.Kind, Writer: o.Writer, AfterSet: after}]++
+		seen[SeenObs{Key: k, Kind: o.Kind, Base: o.Base, Delta: o.Delta, AfterSet: after}]++
 		mu.Unlock()
 	}
 	for k := range w.urls {
@@ -697,11 +730,291 @@ func (r *runner) freeRun(withLarge bool) error {
 		if list[a].AfterSet != list[b].AfterSet {
 			return list[b].AfterSet
 		}
-		return list[a].Writer < list[b].Writer
+		if list[a].Base != list[b].Base {
+			return list[a].Base < list[b].Base
+		}
+		return list[a].Delta < list[b].Delta
 	})
-	r.c.Emit(w.input(true, []Ev{}), Obs{Gets: []ReadObs{}, Probes: []DirObs{}, Seen: list})
+	r.c.Emit(w.input(true, []Ev{}), Obs{Gets: []ReadObs{}, Probes: []DirObs{}, Seen: list, Failed: []int{}})
 	r.c.Count("experiment=free-running")
 	r.c.Note("free run (large=%v, %v): %d Set calls by 3 goroutines + 3 processes, %d Gets by 4 readers, %d SIGKILLs of a 4th writer process, %d distinct results, %d leftover temp files, %d foreign files.",
 		withLarge, dur, sets, gets, kills, len(list), d.Temps, d.Others)
+	return nil
+}
+
+// sharedContent: histories of Set calls on ONE URL whose bundles share content.
+func (r *runner) sharedContent(all2 [][]int) error {
+	pl := r.pool
+	B, B2, B3 := pl.small[0], pl.small[1], pl.medium[0]
+	D, D2 := pl.deltas[0], pl.deltas[1]
+	type wr struct{ base, delta *bund }
+	hist := []struct {
+		name string
+		ws   []wr
+	}{
+		{"base+delta,then-same-base-alone", []wr{{B, D}, {B, nil}}},
+		{"base-alone,then-same-base+delta", []wr{{B, nil}, {B, D}}},
+		{"same-base-two-deltas", []wr{{B, D}, {B, D2}}},
+		{"identical-bundle-twice", []wr{{B, D}, {B, D}}},
+		{"identical-base-alone-twice", []wr{{B, nil}, {B, nil}}},
+		{"A-B-A", []wr{{B, nil}, {B2, nil}, {B, nil}}},
+		{"delta,no-delta,delta", []wr{{B, D}, {B, nil}, {B, D}}},
+		{"same-delta-two-bases", []wr{{B, D}, {B2, D}}},
+		{"other-base-between", []wr{{B, D}, {B2, nil}, {B, nil}}},
+		{"medium-base+delta,then-alone", []wr{{B3, D2}, {B3, nil}}},
+		{"A+d-B-A", []wr{{B, D}, {B2, D2}, {B, nil}}},
+	}
+	for hi, h := range hist {
+		n := len(h.ws)
+		// who runs the calls: all goroutines of one FileCache; or alternating goroutine / child
+		for mode := 0; mode < 3; mode++ {
+			plans := make([]wplan, n)
+			for i, x := range h.ws {
+				plans[i] = wplan{key: 0, base: x.base, delta: x.delta, child: (mode == 1 && i%2 == 1) || (mode == 2 && i%2 == 0)}
+			}
+			// sequential: a Get after every completed Set
+			var order []int
+			gets := map[int][]int{}
+			for i := 0; i < n; i++ {
+				order = append(order, i, i, i, i)
+				gets[4*(i+1)] = []int{0}
+			}
+			if err := r.one("shared-content-sequential:"+h.name, 1, plans, func(w *world) []Ev {
+				return trace(w, full(n), order, gets)
+			}); err != nil {
+				return err
+			}
+			// interleaved: the last two calls overlap (all 70 interleavings in thorough)
+			k := 6
+			if r.c.Thorough() {
+				k = len(all2)
+			}
+			if mode == 2 {
+				continue
+			}
+			for j := 0; j < k; j++ {
+				o := all2[(j*11+hi*7+mode*3)%len(all2)]
+				if r.c.Thorough() {
+					o = all2[j]
+				}
+				var ord []int
+				for i := 0; i < n-2; i++ {
+					ord = append(ord, i, i, i, i)
+				}
+				for _, x := range o {
+					ord = append(ord, n-2+x)
+				}
+				if err := r.one("shared-content-interleaved:"+h.name, 1, plans, func(w *world) []Ev {
+					return trace(w, full(n), ord, map[int][]int{len(ord): {0}})
+				}); err != nil {
+					return err
+				}
+			}
+		}
+	}
+	return nil
+}
+
+// writeFaults: the write step of a child-process writer fails (RLIMIT_FSIZE below the entry size,
+// SIGXFSZ ignored: write(2) is short, then EFBIG) and the writer keeps running.
+func (r *runner) writeFaults() error {
+	var orders [][]int
+	interleavings([]int{4, 2}, func(o []int) { orders = append(orders, copyInts(o)) })
+	for _, large := range []bool{false, true} {
+		for li := 0; li < 4; li++ {
+			for _, pre := range []bool{false, true} {
+				for _, against := range []bool{false, true} { // interleaved with a goroutine writer
+					plans := []wplan{{key: 0}, {key: 0}, {key: 0, child: true, large: large, limited: true}}
+					w0, err := newWorld(r.c, r.pool, 1, plans) // only to learn the entry size
+					if err != nil {
+						return err
+					}
+					size := w0.bundles[2].fileSize
+					w0.cleanup()
+					limit := []int64{0, 1, size / 2, 4096}[li]
+					plans[2].fsize = limit
+					faulty := limit < size
+					fscript := []string{"create", "wfail"}
+					if !faulty {
+						fscript = wsteps
+					}
+					var variants [][]int
+					if against {
+						var os2 [][]int
+						interleavings([]int{4, len(fscript)}, func(o []int) { os2 = append(os2, copyInts(o)) })
+						take := 3
+						if r.c.Thorough() || (large && li == 2) || (!large && li == 1) {
+							take = len(os2)
+						}
+						for j := 0; j < take; j++ {
+							if take == len(os2) {
+								variants = append(variants, os2[j])
+							} else {
+								variants = append(variants, os2[r.c.Rand.Intn(len(os2))])
+							}
+						}
+					} else {
+						variants = [][]int{nil}
+					}
+					for _, v := range variants {
+						var order []int
+						scripts := [][]string{{}, {}, fscript}
+						if pre {
+							scripts[0] = wsteps
+							order = append(order, 0, 0, 0, 0)
+						}
+						if against {
+							scripts[1] = wsteps
+							for _, x := range v {
+								order = append(order, 1+x)
+							}
+						} else {
+							for range fscript {
+								order = append(order, 2)
+							}
+						}
+						label := fmt.Sprintf("write-fault-limit-%s", []string{"0", "1", "half", "4096"}[li])
+						if !faulty {
+							label = "write-limit-not-reached"
+						}
+						if err := r.one(label, 1, plans, func(w *world) []Ev {
+							evs := trace(w, scripts, order, map[int][]int{len(order): {0}})
+							for i := range evs {
+								if evs[i].Kind == "wfail" {
+									// cells stored before the failure (irrelevant to observers: the temp file is removed)
+									evs[i].B = int(limit * int64(w.dataLen(2)) / size)
+								}
+							}
+							return evs
+						}); err != nil {
+							return err
+						}
+					}
+				}
+			}
+		}
+	}
+	return nil
+}
+
+// freeAlternating: on ONE URL, writers alternate between a small and a medium bundle (the entry
+// grows and shrinks all the time) against several readers - short runs, one case each.
+func (r *runner) freeAlternating() error {
+	file.VerifHook = nil
+	defer installHook()
+	runs, dur := 4, 250*time.Millisecond
+	if r.c.Thorough() {
+		runs, dur = 16, 400*time.Millisecond
+	}
+	for run := 0; run < runs; run++ {
+		pl := r.pool
+		plans := []wplan{{key: 0, base: pl.small[0]}, {key: 0, base: pl.medium[0]}, {key: 0, base: pl.small[1], delta: pl.deltas[2]}, {key: 0, base: pl.medium[1]}}
+		w, err := newWorld(r.c, r.pool, 1, plans)
+		if err != nil {
+			return err
+		}
+		var mu sync.Mutex
+		seen := map[SeenObs]int{}
+		record := func(k int, o ReadObs, after bool) {
+			mu.Lock()
+			seen[SeenObs{Key: k, Kind: o.Kind, Base: o.Base, Delta: o.Delta, AfterSet: after}]++
+			mu.Unlock()
+		}
+		for k := range w.urls {
+			record(k, w.get(k), false)
+		}
+		if err := w.cache.Set(context.Background(), w.urls[0], w.bundle(0)); err != nil {
+			return err
+		}
+		stop := make(chan struct{})
+		var wg sync.WaitGroup
+		var setErr error
+		var sets, gets int64
+		for g := 0; g < 2; g++ {
+			g := g
+			wg.Add(1)
+			go func() {
+				defer wg.Done()
+				n := int64(0)
+				for i := 0; ; i++ {
+					select {
+					case <-stop:
+						mu.Lock()
+						sets += n
+						mu.Unlock()
+						return
+					default:
+					}
+					idx := 2*g + i%2 // small, medium, small, medium ...
+					if err := w.cache.Set(context.Background(), w.urls[0], w.bundle(idx)); err != nil {
+						mu.Lock()
+						setErr = err
+						mu.Unlock()
+						return
+					}
+					n++
+				}
+			}()
+		}
+		for rd := 0; rd < 6; rd++ {
+			rd := rd
+			wg.Add(1)
+			go func() {
+				defer wg.Done()
+				n := int64(0)
+				for {
+					select {
+					case <-stop:
+						mu.Lock()
+						gets += n
+						mu.Unlock()
+						return
+					default:
+					}
+					for k := range w.urls {
+						if rd%2 == 0 {
+							record(k, w.get(k), k == 0)
+						} else {
+							record(k, w.classify(w.reader.Get(context.Background(), w.urls[k])), k == 0)
+						}
+						n++
+					}
+				}
+			}()
+		}
+		time.Sleep(dur)
+		close(stop)
+		wg.Wait()
+		if setErr != nil {
+			w.cleanup()
+			return setErr
+		}
+		var list []SeenObs
+		for s := range seen {
+			list = append(list, s)
+		}
+		sort.Slice(list, func(a, b int) bool {
+			x, y := list[a], list[b]
+			if x.Key != y.Key {
+				return x.Key < y.Key
+			}
+			if x.Kind != y.Kind {
+				return x.Kind < y.Kind
+			}
+			if x.Base != y.Base {
+				return x.Base < y.Base
+			}
+			if x.Delta != y.Delta {
+				return x.Delta < y.Delta
+			}
+			return !x.AfterSet && y.AfterSet
+		})
+		r.c.Emit(w.input(true, []Ev{}), Obs{Gets: []ReadObs{}, Probes: []DirObs{}, Seen: list, Failed: []int{}})
+		r.c.Count("experiment=free-running-alternating-sizes")
+		if run == 0 {
+			r.c.Note("free run with alternating entry sizes (%v, one of %d): %d Set calls by 2 goroutines, %d Gets by 6 readers.", dur, runs, sets, gets)
+		}
+		w.cleanup()
+	}
 	return nil
 }
